@@ -476,6 +476,7 @@ func run(p *kernel.Plan) (res *kernel.Result) {
 	}
 	if raceEngine {
 		res.Stat("race_engine_runs", 1)
+		res.Stat("releases_left_blocked_on_a_real_lock", int64(s.RealBlocked))
 		if err != nil {
 			return res.Fail("harness/race-engine-run", "%v %v", err, stuck)
 		}
@@ -689,6 +690,14 @@ func run(p *kernel.Plan) (res *kernel.Result) {
 		}
 	}
 	// after the Close frame: every message-completing call invoked later fails with ErrCloseSent
+	closedAt := -1 // step at which the closer invoked Close()
+	for _, cs := range calls {
+		for _, c := range cs {
+			if c.what == "Close()" {
+				closedAt = c.step0
+			}
+		}
+	}
 	if closeFrameStep >= 0 {
 		res.Stat("runs_with_close_frame", 1)
 		for _, cs := range calls {
@@ -702,6 +711,12 @@ func run(p *kernel.Plan) (res *kernel.Result) {
 				}
 				if c.err != nil && c.expired {
 					continue // its own deadline had passed: the timeout error is as good
+				}
+				if c.err != nil && closedAt >= 0 && closedAt <= c.step1 {
+					// the closer had called Close() by then: which of the two reasons
+					// the failing write names is left open (nothing reaches the wire)
+					res.Stat("calls_after_close_frame_and_Close", 1)
+					continue
 				}
 				return res.Fail("C15/write-after-close-accepted", "%s was invoked at step %d, after the Close frame reached the wire at step %d, and returned %v instead of the close-sent error", c.what, c.step0, closeFrameStep, c.err)
 			}
